@@ -1,4 +1,5 @@
 import YaqsModel.Props.C01
+import YaqsModel.Lemmas.Dissipation
 
 /-!
 # C03 — noisy circuit trajectories average to ideal gates plus local Lindblad noise  (placement + lottery part)
@@ -274,3 +275,300 @@ theorem c03_partial (L : Nat) (procs : List Proc) (hnoisy : isNoisy (some procs)
     c03_local_expectation L procs a b hab hb nrm n a0 av v0 v hn0 hn1 hadj hP hv0 ha0 hv ha d hd⟩
 
 end Yaqs.Lottery
+
+/-!
+# C03 / C01 extension — the dissipation sweep `apply_dissipation` and the whole noisy `digital_tjm` pipeline
+
+The clause "after every two-qubit gate, the Lindblad channel (unit duration) of the processes located on that gate's
+qubits" (C03) and the mechanism "non-unitary dissipation sweep exp(-dt/2 · Σ γ L†L), site by site" (C01) were until
+here only *placed* (`DOp.diss dt ps` is one opaque operation).  `Model.Dissipation.dissipationOps` opens that
+operation: it is the list of state-changing steps the real `apply_dissipation` performs (trace-tied on every run by
+`harness/impl/C03.py`, kinds `dissip` / `dpipe`), and `noisyDigitalTjm` is the whole event list of a noisy run —
+layer schedule of C02/C16 (`Model.Layers`), gate applications, sweep steps, lotteries, normalisations, evaluations.
+
+Proved below, for every chain length `L`, every process list in any order, every `dt`:
+
+* `dissipation_each_once`, `dissipation_zero_not_skipped` — every process contributes exactly one operation, on its own
+  site(s), with coefficient `dt·γ_k/2`; nothing else is applied; the centre shifts are `SVD` at `L-1 … 1`;
+* `dissipation_order` — the operations are strictly sorted: decreasing sweep position; per position one-site processes,
+  then the pairs ending there, then the shift; list order inside a group;
+* `dissipation_all_zero_iff`, `dissipation_any_variant_wrong` — the early return is taken iff there is no model or every
+  strength is zero (then only `QR` shifts happen); `any` instead of `all` would drop non-zero processes;
+* `dissipation_raises_iff` — `NotImplementedError` iff a non-Pauli long-range pair is reached, and the sweep stops there;
+* `dissipation_product`, `dissipation_product_comm` — in any monoid in which the per-process factors commute, the sweep is
+  `Π_k f_k(dt·γ_k/2)`, whatever the order of the list;
+* `local_dissipation` — on the local noise model of a gate only that gate's processes act, on that gate's qubits;
+* `digital_pipeline` — the event list of a noisy trajectory is the C02 schedule with the noise block after every
+  two-qubit gate and nothing after one-qubit gates; erasing the noise gives back the noise-free event list of C02/C16.
+
+Not proved (as before): that `exp(-dt/2 Σ γ L†L)` followed by the jump lottery agrees with `exp(dt·𝓛)` to second order
+(`c03_full`, analytic).  The numeric content of one operation (`expm`, SVD split, centre shifts preserve the state) is
+checked on the real code by the dense oracle of the `dissip` kind.
+-/
+namespace Yaqs.Dissipation
+open Yaqs Yaqs.Lottery
+
+/-- a process list of the example kind: one-site Pauli / non-Pauli, adjacent pair (Pauli and not), long-range Pauli pair,
+    zero strengths mixed in, not in sweep order -/
+def exProcs : List Proc :=
+  [exX 1 (2/10), exLow 2 0, exXX 0 (7/10), exXXlr 0 2 (3/10), exLowLow 1 (1/2), exLow 0 (1/10), exX 2 0]
+
+/-- **C01/C03 (dissipation sweep: each process exactly once)**  For a model that is not all-zero and whose processes are
+    one-site, adjacent pairs or Pauli pairs inside the chain (any order, duplicates and zero strengths allowed), the
+    process applications performed by `apply_dissipation` are — up to order — exactly one per list position `k`: on the
+    process's own site (one-site), on its second site as a scalar (Pauli pair, adjacent or long-range), or on its two
+    sites (adjacent non-Pauli pair), with exponent coefficient `dt·γ_k/2` (not `dt·γ_k`).  Besides them the function
+    performs only the SVD centre shifts at `L-1, …, 1`, and it does not raise. -/
+theorem dissipation_each_once (L : Nat) (procs : List Proc) (dt : Rat)
+    (hne : earlyReturn (some procs) = false) (hw : ∀ p ∈ procs, wellSited L p = true) :
+    (apps (dissipationOps L (some procs) dt)).Perm
+      ((indexed 0 procs).map (fun kp => Op.app kp.1 (targetOf kp.2) (dt * kp.2.gamma / 2) (kindOf kp.2))) ∧
+    shifts (dissipationOps L (some procs) dt) = ((sitesDown L).filter (fun i => i != 0)).map Op.svd ∧
+    (∀ o ∈ dissipationOps L (some procs) dt, o.isRaise = false) := by
+  rw [dissipationOps_main L procs dt hne, fullOps_wellSited L dt procs hw]
+  exact ⟨apps_sweep_perm L dt procs hw, shifts_sweep L dt _, sweep_no_raise L dt _⟩
+
+example : earlyReturn (some exProcs) = false ∧ ∀ p ∈ exProcs, wellSited 3 p = true := by decide +kernel
+example : dissipationOps 3 (some exProcs) (1/2) =
+    [.app 1 [2] 0 .site, .app 6 [2] 0 .scalar, .app 3 [2] (3/40) .scalar, .app 4 [1, 2] (1/8) .pair, .svd 2,
+     .app 0 [1] (1/20) .scalar, .app 2 [1] (7/40) .scalar, .svd 1, .app 5 [0] (1/40) .site] := by decide +kernel
+
+/-- **C01/C03 (zero strengths are not skipped)**  In a model with at least one non-zero strength a process of strength
+    zero still gets its operation (the identity factor `exp(0)`, resp. `expm(0)`): the code filters on sites only. -/
+theorem dissipation_zero_not_skipped (L : Nat) (procs : List Proc) (dt : Rat)
+    (hne : earlyReturn (some procs) = false) (hw : ∀ p ∈ procs, wellSited L p = true)
+    (k : Nat) (p : Proc) (hk : procs[k]? = some p) (hz : p.gamma = 0) :
+    Op.app k (targetOf p) 0 (kindOf p) ∈ dissipationOps L (some procs) dt := by
+  have hperm := (dissipation_each_once L procs dt hne hw).1
+  have hm : (k, p) ∈ indexed 0 procs := by simpa using indexed_mem_of_lookup 0 procs k p hk
+  have hz' : dt * p.gamma / 2 = 0 := by rw [hz, Rat.mul_zero, Rat.div_def, Rat.zero_mul]
+  have : Op.app k (targetOf p) 0 (kindOf p) ∈
+      (indexed 0 procs).map (fun kp => Op.app kp.1 (targetOf kp.2) (dt * kp.2.gamma / 2) (kindOf kp.2)) := by
+    refine List.mem_map.mpr ⟨(k, p), hm, ?_⟩
+    simp only [hz']
+  exact mem_of_mem_apps _ _ (hperm.mem_iff.mpr this)
+
+example : Op.app 1 (targetOf (exLow 2 0)) 0 (kindOf (exLow 2 0)) ∈ dissipationOps 3 (some exProcs) (1/2) := by decide +kernel
+
+/-- **C01/C03 (dissipation sweep: order)**  Under the hypotheses of `dissipation_each_once` the operation list is strictly
+    sorted by `Before`: sweep position decreasing from `L-1`; at one position first the one-site processes in list order,
+    then the pairs whose second site is that position in list order, then the SVD shift.  Together with
+    `dissipation_each_once` this determines the list. -/
+theorem dissipation_order (L : Nat) (procs : List Proc) (dt : Rat)
+    (hne : earlyReturn (some procs) = false) (hw : ∀ p ∈ procs, wellSited L p = true) :
+    (dissipationOps L (some procs) dt).Pairwise (Before procs) := by
+  rw [dissipationOps_main L procs dt hne, fullOps_wellSited L dt procs hw]
+  exact sweep_sorted L dt procs hw
+
+example : Before exProcs (.app 6 [2] 0 .scalar) (.app 3 [2] (3/40) .scalar) ∧ Before exProcs (.app 4 [1, 2] (1/8) .pair) (.svd 2) ∧
+    Before exProcs (.svd 2) (.app 0 [1] (1/20) .scalar) := by
+  refine ⟨?_, ?_, ?_⟩ <;> unfold Before <;> decide +kernel
+
+/-- **C01/C03 (early return)**  The early-return branch is taken iff the model is `None` or *every* strength is zero
+    (an empty model included); it is the same predicate as the noise-free branch of `digital_tjm` (`!isNoisy`); in it
+    `apply_dissipation` performs the QR centre shifts `L-1, …, 0` and nothing else; outside it no QR shift happens. -/
+theorem dissipation_all_zero_iff (L : Nat) (nm : Option (List Proc)) (dt : Rat) :
+    (earlyReturn nm = true ↔ nm = none ∨ ∃ ps, nm = some ps ∧ ∀ p ∈ ps, p.gamma = 0) ∧
+    earlyReturn nm = !isNoisy nm ∧
+    (earlyReturn nm = true → dissipationOps L nm dt = (sitesDown L).map Op.qr) ∧
+    (earlyReturn nm = false → ∀ i, Op.qr i ∉ dissipationOps L nm dt) := by
+  refine ⟨earlyReturn_iff nm, earlyReturn_eq_not_isNoisy nm, dissipationOps_early L nm dt, ?_⟩
+  intro hne i hmem
+  cases nm with
+  | none => simp [earlyReturn] at hne
+  | some procs =>
+    rw [dissipationOps_main L procs dt hne] at hmem
+    exact qr_not_mem_fullOps L dt procs i ((cutAtRaise_prefix _).subset hmem)
+
+example : dissipationOps 3 (some [exX 1 0, exLowLow 0 0]) (1/2) = [.qr 2, .qr 1, .qr 0] := by decide +kernel
+example : dissipationOps 3 none (1/2) = [.qr 2, .qr 1, .qr 0] := by decide +kernel
+
+/-- **C01/C03 (why `all`)**  Counterexample for the variant with `any(strength == 0)`: one zero strength in the list would
+    switch the whole sweep off, although another process has strength `1/2` — the real function (`all`) applies it. -/
+theorem dissipation_any_variant_wrong :
+    earlyReturnAny (some [exX 0 0, exLow 1 (1/2)]) = true ∧ earlyReturn (some [exX 0 0, exLow 1 (1/2)]) = false ∧
+    dissipationOpsAny 2 (some [exX 0 0, exLow 1 (1/2)]) 1 = [.qr 1, .qr 0] ∧
+    dissipationOps 2 (some [exX 0 0, exLow 1 (1/2)]) 1 = [.app 1 [1] (1/4) .site, .svd 1, .app 0 [0] 0 .scalar] := by
+  decide +kernel
+
+/-- **C01/C03 (exception branch)**  `apply_dissipation` raises `NotImplementedError` iff the model is not all-zero and
+    contains a pair that is neither Pauli nor adjacent and whose second site is a sweep position `1 … L-1`; what has been
+    executed then is a prefix of the exception-free sweep ending with the exception (the state is left half-swept). -/
+theorem dissipation_raises_iff (L : Nat) (procs : List Proc) (dt : Rat) :
+    ((∃ k, Op.raise k ∈ dissipationOps L (some procs) dt) ↔
+      (earlyReturn (some procs) = false ∧ ∃ p ∈ procs, raisesAt L p = true)) ∧
+    (∀ k, Op.raise k ∈ dissipationOps L (some procs) dt →
+      (dissipationOps L (some procs) dt).getLast? = some (Op.raise k) ∧
+      dissipationOps L (some procs) dt <+: fullOps L dt procs) := by
+  by_cases he : earlyReturn (some procs) = true
+  · rw [dissipationOps_early L _ dt he]
+    constructor
+    · simp [he]
+    · intro k hk; simp at hk
+  · have hne : earlyReturn (some procs) = false := by simpa using he
+    rw [dissipationOps_main L procs dt hne]
+    constructor
+    · rw [cutAtRaise_raise_mem]
+      constructor
+      · rintro ⟨k, hk⟩
+        obtain ⟨p, hm, hr⟩ := (raise_mem_fullOps L dt procs k).mp hk
+        exact ⟨hne, p, indexed_mem_snd 0 procs (k, p) hm, hr⟩
+      · rintro ⟨_, p, hp, hr⟩
+        obtain ⟨k, hk⟩ := List.getElem?_of_mem hp
+        refine ⟨k, (raise_mem_fullOps L dt procs k).mpr ⟨p, ?_, hr⟩⟩
+        simpa using indexed_mem_of_lookup 0 procs k p hk
+    · intro k hk
+      exact ⟨cutAtRaise_last _ k hk, cutAtRaise_prefix _⟩
+
+example : dissipationOps 4 (some [exX 3 (1/5), ⟨[0, 2], 1/2, false, .factors mLow mLow⟩, exLow 0 (1/10)]) 1 =
+    [.app 0 [3] (1/10) .scalar, .svd 3, .raise 1] := by decide +kernel
+
+/-- **C01/C03 (the sweep is `Π_k exp(-dt·γ_k/2 · L_k†L_k)`)**  Interpret the application of process `p` with coefficient `c`
+    as `F p c` in any monoid (operators on the state space, say, with `F p c = exp(-c·L_p†L_p)`), centre shifts as the
+    identity.  If the factors of the listed processes commute pairwise — scalars, simultaneously diagonal operators,
+    processes on disjoint sites — the whole sweep is the product over the list of `F p (dt·γ_p/2)`, and that product
+    does not depend on the order of the list.  (Without commutation the value is the product in `dissipation_order`'s
+    order; the harness checks both cases on the dense vector.) -/
+theorem dissipation_product {M : Type*} [Monoid M] (L : Nat) (procs : List Proc) (dt : Rat)
+    (hne : earlyReturn (some procs) = false) (hw : ∀ p ∈ procs, wellSited L p = true) (F : Proc → Rat → M)
+    (hc : ∀ p ∈ procs, ∀ q ∈ procs, Commute (F p (dt * p.gamma / 2)) (F q (dt * q.gamma / 2))) :
+    ((dissipationOps L (some procs) dt).map (interp procs F)).prod = (procs.map (fun p => F p (dt * p.gamma / 2))).prod ∧
+    ∀ procs', procs.Perm procs' →
+      (procs.map (fun p => F p (dt * p.gamma / 2))).prod = (procs'.map (fun p => F p (dt * p.gamma / 2))).prod := by
+  refine ⟨?_, fun procs' hp => prod_perm_of_commute dt procs procs' hp F hc⟩
+  rw [dissipationOps_main L procs dt hne]
+  exact sweep_prod L dt procs hw F hc
+
+/-- **C01/C03** the commutative case (scalar factors, e.g. an all-Pauli model: every factor is `exp(-dt·γ_k/2)`):
+    no hypothesis on the factors is needed, and reordering the list changes nothing. -/
+theorem dissipation_product_comm {M : Type*} [CommMonoid M] (L : Nat) (procs procs' : List Proc) (dt : Rat)
+    (hperm : procs.Perm procs')
+    (hne : earlyReturn (some procs) = false) (hw : ∀ p ∈ procs, wellSited L p = true) (F : Proc → Rat → M) :
+    ((dissipationOps L (some procs) dt).map (interp procs F)).prod = (procs.map (fun p => F p (dt * p.gamma / 2))).prod ∧
+    ((dissipationOps L (some procs') dt).map (interp procs' F)).prod =
+      ((dissipationOps L (some procs) dt).map (interp procs F)).prod := by
+  have hne' : earlyReturn (some procs') = false := by
+    have h1 := earlyReturn_eq_not_isNoisy (some procs)
+    have h2 := earlyReturn_eq_not_isNoisy (some procs')
+    have : isNoisy (some procs') = isNoisy (some procs) := by
+      simp only [isNoisy]
+      exact (hperm.symm.any_eq)
+    rw [h2, this, ← h1]; exact hne
+  have hw' : ∀ p ∈ procs', wellSited L p = true := fun p hp => hw p (hperm.mem_iff.mpr hp)
+  have a := dissipation_product L procs dt hne hw F (fun _ _ _ _ => Commute.all _ _)
+  have b := dissipation_product L procs' dt hne' hw' F (fun _ _ _ _ => Commute.all _ _)
+  exact ⟨a.1, by rw [b.1, a.1, a.2 procs' hperm]⟩
+
+/-- non-vacuity: the example list (seven processes of all kinds, zero strengths included) meets the hypotheses -/
+example := dissipation_product (M := ℕ) 3 exProcs (1/2) (by decide +kernel) (by decide +kernel)
+  (fun p _ => p.sites.length + 1) (fun _ _ _ _ => Commute.all _ _)
+
+/-- **C03 (local dissipation)**  For a two-qubit gate on neighbouring qubits `(a, a+1)` inside the chain and *any* global
+    process list: every process of the local noise model is well-sited, so the sweep never raises; if the local model is
+    empty or all-zero only QR shifts happen; otherwise each local process is applied exactly once, and every process
+    application of the sweep belongs to a process of the global list that sits on `[a]`, `[a+1]` or `[a, a+1]`, touches
+    only the tensors `a`, `a+1`, and has coefficient `dt·γ/2` — processes on other qubits do not appear.  (The centre
+    shifts still run over the whole chain.) -/
+theorem local_dissipation (L a : Nat) (h : a + 1 < L) (procs : List Proc) (dt : Rat) :
+    (earlyReturn (some (localNoise procs a (a + 1))) = true →
+      dissipationOps L (some (localNoise procs a (a + 1))) dt = (sitesDown L).map Op.qr) ∧
+    (earlyReturn (some (localNoise procs a (a + 1))) = false →
+      (apps (dissipationOps L (some (localNoise procs a (a + 1))) dt)).Perm
+        ((indexed 0 (localNoise procs a (a + 1))).map
+          (fun kp => Op.app kp.1 (targetOf kp.2) (dt * kp.2.gamma / 2) (kindOf kp.2))) ∧
+      (∀ o ∈ dissipationOps L (some (localNoise procs a (a + 1))) dt, o.isRaise = false) ∧
+      (∀ k t c kd, Op.app k t c kd ∈ dissipationOps L (some (localNoise procs a (a + 1))) dt →
+        ∃ p, (localNoise procs a (a + 1))[k]? = some p ∧ p ∈ procs ∧ IsLocal a (a + 1) p ∧
+          (∀ x ∈ t, x = a ∨ x = a + 1) ∧ c = dt * p.gamma / 2)) := by
+  refine ⟨dissipationOps_early L _ dt, ?_⟩
+  intro hne
+  have hw := local_wellSited L a h procs
+  have ho := dissipation_each_once L (localNoise procs a (a + 1)) dt hne hw
+  refine ⟨ho.1, ho.2.2, ?_⟩
+  intro k t c kd hmem
+  have h1 := ho.1.mem_iff.mp (mem_apps_of_app _ k t c kd hmem)
+  obtain ⟨kp, hkp, heq⟩ := List.mem_map.mp h1
+  simp only [Op.app.injEq] at heq
+  obtain ⟨hk, ht, hc, _⟩ := heq
+  have hl := indexed_lookup0 _ kp hkp
+  have hp := indexed_mem_snd 0 _ kp hkp
+  have hmem' := (c03_localNoise_mem procs a (a + 1) kp.2).mp hp
+  refine ⟨kp.2, by rw [← hk]; exact hl, hmem'.1, hmem'.2, ?_, hc.symm⟩
+  rw [← ht]
+  exact local_target_subset a procs kp.2 hp
+
+example : dissipationOps 4 (some (localNoise [exX 1 (2/10), exX 3 (5/10), exXX 1 (7/10), exLow 2 (1/10), exXX 0 (1/3), exXXlr 0 2 (1/7)] 1 2)) 1 =
+    [.svd 3, .app 2 [2] (1/20) .site, .app 1 [2] (7/20) .scalar, .svd 2, .app 0 [1] (1/10) .scalar, .svd 1] := by decide +kernel
+
+/-- **C03 (`digital_pipeline`)**  For every circuit (as an instruction list), every noise model, every mode and chain
+    length, the run of `digital_tjm` terminates with an event list `evs` such that
+    1. erasing the noise events gives exactly the event list of the noise-free model of C02/C16 — in particular the gate
+       applications are `Layers.schedule` (so `schedule_perm`, `schedule_respects_wires`, `schedule_sound` apply), and
+       the evaluation columns are those of C16;
+    2. the gate and noise events are, in schedule order, one block per gate: the application alone for a one-qubit gate;
+       for a two-qubit gate on qargs `(a, b)` the application followed — in a noisy run — by the operations of
+       `apply_dissipation` on the local noise model of `(min a b, max a b)` at `dt = 1` (the sweep of
+       `dissipation_each_once` / `local_dissipation`, or its QR early return when the local model is empty or all-zero)
+       and then one jump lottery on that same local list at `dt = 1`, or — without a model / with all strengths zero —
+       by `normalize` alone; after the loop one more `normalize` in the strong modes iff the node handled last was a
+       one-qubit gate;
+    3. the noise events alone are the expansion of the placement model `Lottery.digitalOps` (theorems `c03_*`) on the
+       scheduled gates: every `DOp.diss 1 ps` replaced by `dissipationOps L (some ps) 1`. -/
+theorem digital_pipeline (nm : Option (List Proc)) (L : Nat) (mode : Layers.Mode) (numMid : Nat) (c : List Layers.Instr) :
+    ∃ evs, noisyDigitalTjm nm L mode numMid c = some evs ∧
+      Layers.digitalTjm mode numMid c = some (evs.filterMap PEv.toEvent) ∧
+      evs.filter (fun e => e.isGate || e.isNoise) =
+        (Layers.schedule c).flatMap (gateBlock nm L) ++
+          (if mode ≠ .weak ∧ canonicalFormLost (Layers.visit c) = true then [PEv.normalize] else []) ∧
+      evs.filter PEv.isNoise =
+        (digitalOps nm ((Layers.schedule c).filterMap toGate)).flatMap (expandDOp L) ++
+          (if mode ≠ .weak ∧ canonicalFormLost (Layers.visit c) = true then [PEv.normalize] else []) ∧
+      (∀ t q, gateBlock nm L (.gate1 t q) = [PEv.app1 t q]) ∧
+      (∀ t a b, earlyReturn nm = true → gateBlock nm L (.gate2 t a b) = [PEv.app2 t a b, PEv.normalize]) ∧
+      (∀ t a b procs, nm = some procs → earlyReturn nm = false →
+        gateBlock nm L (.gate2 t a b) =
+          PEv.app2 t a b :: ((dissipationOps L (some (localNoise procs (min a b) (max a b))) 1).map PEv.dop ++
+            [PEv.lot 1 (localNoise procs (min a b) (max a b))])) := by
+  have hv := Layers.visit_eq c
+  have hfin : ∀ (b : Bool), (if b = true then [PEv.normalize] else []).filterMap PEv.toEvent = [] := by
+    intro b; cases b <;> rfl
+  have hfin3 : ∀ (b : Bool), (if b = true then [PEv.normalize] else []).filter PEv.isNoise =
+      (if b = true then [PEv.normalize] else []) := by
+    intro b; cases b <;> rfl
+  have hb := noisyEmit_blocks nm L mode.sampling 0 (Layers.visit c)
+  have hn := noisyEmit_noise nm L mode.sampling 0 (Layers.visit c)
+  have ht := noisyEmit_toEvent nm L mode.sampling 0 (Layers.visit c)
+  refine ⟨(noisyDigitalTjm nm L mode numMid c).getD [], ?_, ?_, ?_, ?_, fun _ _ => rfl, ?_, ?_⟩
+  · unfold noisyDigitalTjm; rw [hv]; cases mode <;> rfl
+  · unfold noisyDigitalTjm Layers.digitalTjm Layers.digitalTjmWith
+    rw [hv]
+    cases mode <;>
+      simp only [Option.getD_some, List.filterMap_cons, List.filterMap_append, PEv.toEvent, ht, hfin, List.append_nil,
+        List.filterMap_nil, Layers.Mode.sampling] at ht ⊢
+  · unfold noisyDigitalTjm
+    rw [hv]
+    unfold Layers.schedule
+    cases mode <;>
+      simp [List.filter_append, hb, PEv.isGate, PEv.isNoise, Layers.Mode.sampling] at hb ⊢
+  · unfold noisyDigitalTjm
+    rw [hv]
+    unfold Layers.schedule
+    cases mode <;>
+      simp [List.filter_append, hn, hfin3, PEv.isNoise, Layers.Mode.sampling] at hn ⊢
+  · intro t a b he
+    simp [gateBlock, noiseBlock, he]
+  · intro t a b procs hnm he
+    subst hnm
+    simp [gateBlock, noiseBlock, he]
+
+example : noisyDigitalTjm (some [exX 0 (1/10), exX 2 (1/10), exXX 0 (7/10), exLow 1 0]) 3 .strongPlain 0
+      [.gate1 1 1, .gate2 2 1 0, .barrier [0, 1], .gate1 3 0] =
+    some [.app1 1 1, .app2 2 1 0,
+      .dop (.svd 2), .dop (.app 2 [1] 0 .site), .dop (.app 1 [1] (7/20) .scalar), .dop (.svd 1), .dop (.app 0 [0] (1/20) .scalar),
+      .lot 1 [exX 0 (1/10), exXX 0 (7/10), exLow 1 0],
+      .app1 3 0, .normalize, .eval 0] := by decide +kernel
+
+example : noisyDigitalTjm (some [exX 0 0]) 2 .strongSample 1 [.gate2 1 0 1, .sbarrier [0, 1], .measure 0 0] =
+    some [.eval 0, .app2 1 0 1, .normalize, .eval 1, .eval 2] := by decide +kernel
+
+end Yaqs.Dissipation
